@@ -11,7 +11,27 @@ fn usage() -> ! {
     std::process::exit(2);
 }
 
+struct VLog;
+impl log::Log for VLog {
+    fn enabled(&self, _: &log::Metadata) -> bool {
+        true
+    }
+    fn log(&self, r: &log::Record) {
+        eprintln!("[{:>12.6}] {:5} {}: {}", common::vclock::now() as f64 / 1e6, r.level(), r.target(), r.args());
+    }
+    fn flush(&self) {}
+}
+static VLOG: VLog = VLog;
+
 fn main() {
+    if let Ok(l) = std::env::var("MC_LOG") {
+        let _ = log::set_logger(&VLOG);
+        log::set_max_level(match l.as_str() {
+            "trace" => log::LevelFilter::Trace,
+            "debug" => log::LevelFilter::Debug,
+            _ => log::LevelFilter::Info,
+        });
+    }
     let args: Vec<String> = std::env::args().skip(1).collect();
     if args.is_empty() {
         usage();
@@ -62,6 +82,7 @@ fn main() {
         "C04" => props::c04::run(&ctx),
         "C05" => props::c05::run(&ctx),
         "C09" | "C15" => props::c09::run(&ctx),
+        "C10" => props::c10::run_check(&ctx),
         "C12" => props::c12::run(&ctx),
         "C13" => props::c13::run(&ctx),
         "C16" => props::c16::run(&ctx),
